@@ -6,7 +6,7 @@
                    the slots and the appended bytes (whatever else changes before them or is
                    appended later) *)
 From CV Require Import Value.ValueEq Value.EqualM Value.Den Value.DenFacts Value.DenLists Value.CanonSpec Value.CanonM
-                       Value.CanonMData Value.CanonMHeap Value.CanonMLoop Value.CanonMInd Value.CanonMListR.
+                       Value.CanonMData Value.CanonMHeap Value.CanonMLoop Value.CanonMInd Value.CanonMListR Value.CanonMListC.
 From CV Require Import Core.ReaderFacts Core.SafetyProofs Core.BuilderFacts Core.ArithFacts Core.CopySafe Core.WritePtrProofs.
 From CV Require Core.HeapInv.
 From Coq Require Import ZifyBool ZifyNat.
@@ -262,4 +262,196 @@ Proof.
               unfold bytes_of_words. cbn [flat_map]. rewrite app_nil_r. unfold sub. cbn [Z.to_nat skipn].
               apply firstn_all2. rewrite le_encode_length. lia.
         -- rewrite <- app_assoc. apply (Post pre' (body ++ tail) Lp Hs1 i). lia.
+Qed.
+
+(* ------------------------------------------------------------------ the element loop of a list copy, semantically *)
+(* [step] handles element i: it writes the block of bw words at B + 8*bw*i and appends bytes *)
+Lemma sem_blocks_loop (step : world -> Z -> res world) (m : segs) (B bw : Z) (n : nat) (P : Z -> list Z -> Prop) :
+  0 <= B -> B mod 8 = 0 -> 0 <= bw ->
+  (forall i D cap rl w', 0 <= i < Z.of_nat n -> hinv D -> B + 8 * bw * Z.of_nat n <= zlen D ->
+     step (dstw D cap m rl) i = Ok w' ->
+     exists block body cap' rl',
+       zlen block = bw /\
+       w' = dstw (set_slots D (B + 8 * bw * i) block ++ body) cap' m rl' /\ hinv (D ++ body) /\
+       forall pre' tail, zlen pre' = zlen D -> sub pre' (B + 8 * bw * i) (8 * bw) = bytes_of_words block ->
+         P i (pre' ++ body ++ tail)) ->
+  forall k, (k <= n)%nat -> forall D cap rl w',
+    hinv D -> B + 8 * bw * Z.of_nat n <= zlen D ->
+    fold_res (iota k) (dstw D cap m rl) step = Ok w' ->
+    exists words kids cap' rl',
+      zlen words = bw * Z.of_nat k /\ w' = dstw (set_slots D B words ++ kids) cap' m rl' /\ hinv (D ++ kids) /\
+      forall pre' tail, zlen pre' = zlen D -> sub pre' B (8 * bw * Z.of_nat k) = bytes_of_words words ->
+        forall i, 0 <= i < Z.of_nat k -> P i (pre' ++ kids ++ tail).
+Proof.
+  intros HB HBm Hbw Hstep. induction k as [|k IH]; intros Hk D cap rl w' Hi Hb H.
+  - cbn in H. inversion H; subst. exists [], [], cap, rl. split; [unfold zlen; cbn; lia|].
+    rewrite set_slots_nil by (unfold zlen in *; nia). rewrite !app_nil_r.
+    split; [reflexivity|]. split; [exact Hi|]. intros pre' tail _ _ i Hi0. lia.
+  - rewrite iota_S, fold_res_app in H.
+    destruct (fold_res (iota k) (dstw D cap m rl) step) as [wk| |] eqn:Ek; try discriminate. cbn [bind] in H.
+    destruct (IH ltac:(lia) D cap rl wk Hi Hb Ek) as (words & kids & cap1 & rl1 & Lw & -> & Hi1 & Post).
+    cbn [fold_res] in H. destruct (step _ (Z.of_nat k)) as [w2| |] eqn:Es; try discriminate. cbn [bind] in H.
+    inversion H; subst w'; clear H.
+    assert (Hnn : bw * Z.of_nat k + bw <= bw * Z.of_nat n) by nia.
+    assert (Lsl : zlen (set_slots D B words) = zlen D).
+    { apply set_slots_length; [assumption|]. unfold zlen in *. lia. }
+    assert (Hi1' : hinv (set_slots D B words ++ kids)).
+    { unfold hinv in *. rewrite zlen_app, Lsl. rewrite zlen_app in Hi1. exact Hi1. }
+    destruct (Hstep (Z.of_nat k) _ cap1 rl1 w2 ltac:(lia) Hi1'
+                    ltac:(rewrite zlen_app, Lsl; unfold zlen in *; lia) Es)
+      as (block & body & cap2 & rl2 & Lbk & -> & Hi2 & PostK).
+    exists (words ++ block), (kids ++ body), cap2, rl2.
+    split; [rewrite zlen_app; lia|]. split.
+    + f_equal. rewrite set_slots_app_left by (try rewrite Lsl; lia).
+      replace (B + 8 * bw * Z.of_nat k) with (B + 8 * zlen words) by lia.
+      rewrite set_slots_app by (try rewrite zlen_app; lia).
+      rewrite <- !app_assoc. reflexivity.
+    + split.
+      * unfold hinv in *. rewrite !zlen_app in *. rewrite Lsl in Hi2. lia.
+      * intros pre' tail Lp Hs i Hi0.
+        assert (Lbw : zlen (bytes_of_words words) = 8 * bw * Z.of_nat k) by (unfold zlen in *; rewrite bow_length; lia).
+        assert (Lbb : zlen (bytes_of_words block) = 8 * bw) by (unfold zlen in *; rewrite bow_length; lia).
+        replace (8 * bw * Z.of_nat (S k)) with (8 * bw * Z.of_nat k + 8 * bw) in Hs by lia.
+        assert (Hs1 : sub pre' B (8 * bw * Z.of_nat k) = bytes_of_words words).
+        { rewrite (sub_prefix pre' B (8 * bw * Z.of_nat k) (8 * bw)) by lia. rewrite Hs, bow_app.
+          rewrite firstn_app, firstn_all2 by (unfold zlen in Lbw; lia).
+          replace (Z.to_nat (8 * bw * Z.of_nat k) - length (bytes_of_words words))%nat with 0%nat by (unfold zlen in Lbw; lia).
+          cbn [firstn]. apply app_nil_r. }
+        destruct (Z.eq_dec i (Z.of_nat k)) as [->|Hne].
+        -- rewrite <- app_assoc. rewrite (app_assoc pre' kids). apply PostK.
+           ++ rewrite !zlen_app, Lsl. lia.
+           ++ rewrite sub_app_l by (unfold zlen in *; lia).
+              replace (sub pre' (B + 8 * bw * Z.of_nat k) (8 * bw))
+                with (sub (sub pre' B (8 * bw * Z.of_nat k + 8 * bw)) (8 * bw * Z.of_nat k) (8 * bw))
+                by (apply sub_sub; lia).
+              rewrite Hs, bow_app. rewrite sub_app_r by lia. rewrite Lbw, Z.sub_diag.
+              unfold sub. cbn [Z.to_nat skipn]. apply firstn_all2. unfold zlen in Lbb. lia.
+        -- rewrite <- app_assoc. apply (Post pre' (body ++ tail) Lp Hs1 i). lia.
+Qed.
+
+Lemma set_slots_one D A w : set_slots D A [w] = put_word D A w.
+Proof. unfold set_slots, put_word. cbn [bytes_of_words flat_map length]. rewrite app_nil_r. reflexivity. Qed.
+
+(* ------------------------------------------------------------------ composite lists: the tag word *)
+(* a composite list pointer handed out by the reader sits behind a tag word that agrees with it *)
+Definition ctag_ok (m : segs) (p : Ptr) : Prop :=
+  p_valid p = true -> p_kind p = KList -> p_comp p = true ->
+  8 <= p_off p /\ exists t, readRawPointer (seg_of m p) (p_off p - 8) = Ok t /\ word64 t /\
+    pointerType t = structPointer /\ structSize t = p_size p /\ s32 (ptr_offset t) = p_len p.
+
+Lemma readListPtr_ctag strict m sid s base val lp : seg_ok s -> is_seg m sid s ->
+  readListPtr strict sid s base val = Ok lp -> ctag_ok m lp.
+Proof.
+  intros Hok Hs. unfold readListPtr. destruct (element base (ptr_offset val) 8) as [addr|] eqn:Ee; [|discriminate].
+  destruct (totalListSize val) as [[lsize|]|]; try discriminate.
+  destruct (regionInBounds s addr lsize) eqn:RB; cbn [negb]; [|discriminate]. cbv zeta.
+  destruct (listType val =? 7).
+  - destruct (readRawPointer s addr) as [hdr| |] eqn:Eh; try discriminate. cbn [bind].
+    destruct (addSize addr 8) as [addr'|] eqn:Ea; [|discriminate].
+    destruct (pointerType hdr =? structPointer) eqn:Ept; cbn [negb]; [|discriminate].
+    destruct (strict && (s32 (ptr_offset hdr) <? 0)); [discriminate|].
+    destruct (times (totalSize (structSize hdr)) (s32 (ptr_offset hdr))); [|discriminate].
+    destruct (negb (regionInBounds s addr' z)); [discriminate|].
+    intros H. inversion H; subst. intros _ _ _. cbn [p_off p_size p_len p_seg].
+    apply addSize_spec in Ea. destruct Ea as [-> _]. apply element_spec in Ee.
+    unfold seg_of. cbn [p_seg]. destruct Hs as [_ <-].
+    split; [lia|]. exists hdr. replace (addr + 8 - 8) with addr by lia.
+    split; [exact Eh|]. split.
+    + unfold readRawPointer, readUintN in Eh. destruct (slice s addr 8) as [b| |] eqn:Es; try discriminate. cbn [bind] in Eh.
+      inversion Eh; subst hdr. apply slice_eq_sub in Es; [|exact Hok|lia]. destruct Es as (Eb & B1 & B2).
+      assert (Hb : bytes_ok b) by (rewrite Eb; unfold sub; apply Forall_firstn', Forall_skipn'; apply Hok).
+      pose proof (le_decode_range b Hb) as R.
+      assert (zlen b = 8) by (rewrite Eb; apply sub_length; lia). rewrite H0 in R. unfold word64. change (256 ^ 8) with 18446744073709551616 in R. exact R.
+    + split; [lia|]. split; reflexivity.
+  - destruct (listType val =? 1).
+    + intros H. inversion H; subst. intros _ _ K. discriminate K.
+    + destruct (elementSize val); [|discriminate]. intros H. inversion H; subst. intros _ _ K. discriminate K.
+Qed.
+
+Lemma readPtr_ctag strict m rl sid s a dep q rl' : msg_ok m -> is_seg m sid s -> 0 <= a -> a + 8 <= zlen s ->
+  readPtr strict m rl sid s a dep = (Ok q, rl') -> ctag_ok m q.
+Proof.
+  intros Hm Hs Ha Hb. unfold readPtr.
+  pose proof (resolveFarPointer_safe strict m sid s a Hm Hs Ha Hb) as RS.
+  destruct (resolveFarPointer strict m sid s a) as [[[[dsid dst] base] val]| |]; try discriminate.
+  cbn [res_sat far_post] in RS. destruct RS as (Hds & _ & _).
+  destruct (val =? 0); [intros H; inversion H; subst; intros K; discriminate K|].
+  destruct (dep =? 0); [discriminate|]. cbv zeta.
+  destruct (pointerType val =? structPointer).
+  { unfold readStructPtr. destruct (element base (ptr_offset val) 8); [|discriminate].
+    destruct (negb (regionInBounds dst z (totalSize (structSize val)))); [discriminate|].
+    unfold canRead, struct_readSize. cbn [p_valid p_size]. destruct (rl >=? totalSize (structSize val)); [|discriminate].
+    intros H. inversion H; subst. intros _ K. discriminate K. }
+  destruct (pointerType val =? listPointer).
+  { destruct (readListPtr strict dsid dst base val) as [lp| |] eqn:EL; try discriminate.
+    unfold canRead. destruct (rl >=? list_readSize lp); [|discriminate].
+    intros H. inversion H; subst.
+    pose proof (readListPtr_ctag strict m dsid dst base val lp (is_seg_ok m dsid dst Hm Hds) Hds EL) as C.
+    intros V K Cc. cbn [p_valid p_kind p_comp p_off p_size p_len p_seg] in *.
+    unfold ctag_ok in C. unfold seg_of in *. cbn [p_seg] in *. apply C; try assumption.
+    - unfold readListPtr in EL. destruct (element base (ptr_offset val) 8); [|discriminate].
+      destruct (totalListSize val) as [[?|]|]; try discriminate. destruct (negb _); [discriminate|]. cbv zeta in EL.
+      destruct (listType val =? 7).
+      + destruct (readRawPointer dst z); try discriminate. cbn [bind] in EL. destruct (addSize z 8); [|discriminate].
+        destruct (negb _); [discriminate|]. destruct (strict && _); [discriminate|]. destruct (times _ _); [|discriminate].
+        destruct (negb _); [discriminate|]. inversion EL; reflexivity.
+      + destruct (listType val =? 1); [inversion EL; reflexivity|]. destruct (elementSize val); [|discriminate]. inversion EL; reflexivity.
+    - unfold readListPtr in EL. destruct (element base (ptr_offset val) 8); [|discriminate].
+      destruct (totalListSize val) as [[?|]|]; try discriminate. destruct (negb _); [discriminate|]. cbv zeta in EL.
+      destruct (listType val =? 7).
+      + destruct (readRawPointer dst z); try discriminate. cbn [bind] in EL. destruct (addSize z 8); [|discriminate].
+        destruct (negb _); [discriminate|]. destruct (strict && _); [discriminate|]. destruct (times _ _); [|discriminate].
+        destruct (negb _); [discriminate|]. inversion EL; reflexivity.
+      + destruct (listType val =? 1); [inversion EL; reflexivity|]. destruct (elementSize val); [|discriminate]. inversion EL; reflexivity. }
+  destruct (pointerType val =? otherPointer); [|discriminate].
+  destruct (negb (otherPointerType val =? 0)); [discriminate|].
+  intros H. inversion H; subst. intros _ K. discriminate K.
+Qed.
+
+(* the pointer word of a composite list placed near: the tag word at taddr, the elements behind it *)
+Lemma read_near_comp strict M a taddr n sz wc t dep :
+  0 <= wc < 536870912 -> 0 <= n -> os_wf sz -> totalSize sz * n = 8 * wc ->
+  0 <= a -> a mod 8 = 0 -> a + 8 <= zlen M -> zlen M <= 4294967288 ->
+  0 <= taddr -> taddr mod 8 = 0 -> taddr + 8 + 8 * wc <= zlen M ->
+  word_is M a (withOffset (rawListPointer 0 7 wc) (nearPointerOffset a taddr)) ->
+  readRawPointer M taddr = Ok t -> pointerType t = structPointer -> structSize t = sz -> s32 (ptr_offset t) = n ->
+  dep <> 0 ->
+  exists rl',
+  readPtr strict [M] 4294967288 0 M a dep =
+  (Ok (mkPtr true 0 (taddr + 8) n sz (uint_dec dep) KList true false false), rl').
+Proof.
+  intros Hwc Hn Hwf Hts Ha Ham Hab Hl Ht Htm Htb Hw Htag Tpt Tsz Tn Hd.
+  set (raw := rawListPointer 0 7 wc) in *.
+  destruct (list_pointer_roundtrip 0 7 wc ltac:(unfold off_ok; lia) ltac:(lia) Hwc) as (P64 & Pt & Po & Plt & Pn).
+  fold raw in P64, Pt, Po, Plt, Pn.
+  destruct (HeapInv.fields_list 7 wc ltac:(lia) Hwc) as (_ & Rm4 & _). fold raw in Rm4.
+  assert (Rok : raw_ok raw).
+  { split; [exact P64|]. split; [lia|]. split; [exact Po|]. intros E0. rewrite E0 in Rm4. cbv in Rm4. discriminate Rm4. }
+  destruct (near_resolves M a taddr raw Rok Ha Ham Hab Hl ltac:(lia) Htm Hw) as (base & val & R & Vw & Vt & Vs & Vl & Vn & Ve).
+  pose proof (R strict) as Rs. cbn [Z.to_nat nth] in Rs. unfold readPtr. rewrite Rs.
+  assert (Hv0 : (val =? 0) = false).
+  { destruct (val =? 0) eqn:E; auto. assert (val = 0) by lia. subst val. rewrite Pt in Vt. cbv in Vt. discriminate. }
+  rewrite Hv0. destruct (dep =? 0) eqn:ED; [lia|]. cbv zeta. rewrite Vt, Pt.
+  change (listPointer =? structPointer) with false. change (listPointer =? listPointer) with true. cbv iota.
+  unfold readListPtr. rewrite Ve.
+  assert (HT : totalListSize val = Some (Some (8 * (wc + 1)))).
+  { unfold totalListSize. rewrite Vl, Vn, Plt, Pn. cbv zeta. change (7 =? 1) with false. change (7 =? 7) with true. cbv iota.
+    f_equal. replace (s32 (wc + 1)) with (wc + 1) by (unfold s32; cbv zeta; destruct (_ <? _) eqn:E; lia).
+    apply times_some. unfold maxSegmentSize. lia. }
+  rewrite HT.
+  assert (RB1 : regionInBounds M taddr (8 * (wc + 1)) = true).
+  { unfold regionInBounds, addSize, maxSegmentSize. cbv zeta. destruct (taddr + 8 * (wc + 1) >? 4294967288) eqn:E; lia. }
+  rewrite RB1. cbn [negb]. cbv zeta. rewrite Vl, Plt. change (7 =? 7) with true. cbv iota.
+  rewrite Htag. cbn [bind].
+  assert (EA : addSize taddr 8 = Some (taddr + 8)).
+  { unfold addSize, maxSegmentSize. cbv zeta. destruct (taddr + 8 >? 4294967288) eqn:E; [lia|reflexivity]. }
+  rewrite EA, Tpt. change (structPointer =? structPointer) with true. cbn [negb]. rewrite Tsz, Tn.
+  destruct (strict && (n <? 0)) eqn:En; [lia|].
+  rewrite (times_some (totalSize sz) n) by (rewrite Hts; unfold maxSegmentSize; lia). rewrite Hts.
+  assert (RB2 : regionInBounds M (taddr + 8) (8 * wc) = true).
+  { unfold regionInBounds, addSize, maxSegmentSize. cbv zeta. destruct (taddr + 8 + 8 * wc >? 4294967288) eqn:E; lia. }
+  rewrite RB2. cbn [negb]. unfold canRead.
+  match goal with |- context [if ?c then _ else _] => destruct c eqn:EC end.
+  - eexists. reflexivity.
+  - pose proof (list_readSize_le (mkPtr true 0 (taddr + 8) n sz 0 KList true false false)). lia.
 Qed.
